@@ -913,4 +913,6 @@ def rules(tier):
     return [rule_route, rule_limits, rule_weights, rule_layout, rule_importance, rule_rowindex, rule_impurity, rule_setter, rule_majority,
             carry.make_clone_rule("R-C14-clone", {"linfa_trees"}, 4), carry.make_setter_rule("R-C14-override", {"linfa_trees"}, 4), c04.make_carry_rule("R-C14-carry", {"DecisionTreeParams"}, 4),
             precision.make_rule("R-C14-precision", lambda f: f["d"]["krate"] == "linfa_trees", 40, "linfa-trees"),
-            carry.make_accessor_rule("R-C14-accessor", {"linfa_trees"}, 4), carry.make_ctor_rule("R-C14-ctor", {"linfa_trees"}, 1), rule_sampleindex, rule_maskcount]
+            carry.make_accessor_rule("R-C14-accessor", {"linfa_trees"}, 4), carry.make_ctor_rule("R-C14-ctor", {"linfa_trees"}, 1), rule_sampleindex, rule_maskcount,
+            # the limits that reach the fit are the ones the caller set: `check` hands the checked set on unchanged
+            c04.rule_same]
